@@ -107,7 +107,7 @@ Definition remaining : reader nat := fun s => Some (length s, s).
 Definition parse_callouts : reader (option callouts_t) :=
   id <- get_int 1 ;; fl <- get_int 1 ;; wl <- get_int 2 ;;
   n <- remaining ;;
-  l <- parse_callout_list (S n) (wl * 4) 4 [] ;;
+  l <- parse_callout_list (n + 4) (wl * 4) 4 [] ;;
   match l with
   | None => ret None
   | Some l => ret (Some {| cs_id := id; cs_flags := fl; cs_wlen := wl; cs_list := l |})
